@@ -1,10 +1,12 @@
 #!/bin/bash
-# usage: tools/trymut.sh <patchfile|-> <check ids...>   (patch from stdin when '-'); applies to /repo, runs checks, reverts
+# usage: tools/trymut.sh <patchfile|-> <check ids...>   applies the patch to the scratch checkout /tmp/wt_f (never /repo), runs the checks against it
 P=$1; shift
+W=${VERIF_SCRATCH:-/tmp/wt_f}
 if [ "$P" = "-" ]; then P=/tmp/trymut.$$.diff; cat > $P; fi
-git -C /repo apply $P || { echo "PATCH DOES NOT APPLY"; exit 9; }
+git -C $W checkout -q -- . ; git -C $W reset -q --hard $(git -C /repo rev-parse HEAD) >/dev/null
+git -C $W apply $P || { echo "PATCH DOES NOT APPLY"; exit 9; }
 for c in "$@"; do
-  /verif/check $c --tier quick > /tmp/trymut.$c.log 2>&1; code=$?
+  VERIF_REPO=$W /verif/check $c --tier ${TIER:-quick} > /tmp/trymut.$c.log 2>&1; code=$?
   echo "== $c exit=$code"; grep -E '^(VIOLATION|KNOWN-FINDING|INCONCLUSIVE|OK|  what)' /tmp/trymut.$c.log | cut -c1-400
 done
-git -C /repo checkout -- .
+git -C $W checkout -q -- .
